@@ -290,6 +290,178 @@ theorem interpret_closing (h : RawHead) (ok : HeadOk h) (pl : List Hdr) (c : Hdr
     have n1 : ¬ hConnection = hTransferEncoding := by decide
     have n2 : ¬ hConnection = hContentLength := by decide
     simp [headerLoop, headerStep, n1, n2, hc, hv]
-  simp [interpret, h1, h2, ht, h3, h11, ← hh, hh ▸ hl]
+  simp [interpret, h1, h2, ht, h3, h11, hh ▸ hl]
+
+/-! ### the connection -/
+
+theorem serHead_length_pos (h : RawHead) (hw : HeadWF h) : 0 < (serHead h).length := by
+  cases hm : h.method with
+  | nil => exact absurd hm hw.method_ne
+  | cons a m => simp [serHead, hm]
+
+/-- hyper's read-ahead window does not matter for a head that fits into it -/
+theorem headWindow_ser (h : RawHead) (hw : HeadWF h) (hl : (serHead h).length ≤ maxBuf) (rest : Bytes) :
+    headWindow (serHead h ++ rest) = some (.ok h rest) := by
+  unfold headWindow
+  by_cases hb : (serHead h ++ rest).length ≤ maxBuf
+  · rw [if_pos hb, parseHead_ser h hw]
+  · have ht : (serHead h ++ rest).take maxBuf = serHead h ++ rest.take (maxBuf - (serHead h).length) := by
+      rw [List.take_append, List.take_of_length_le hl]
+    have hlen : (rest.take (maxBuf - (serHead h).length)).length = maxBuf - (serHead h).length := by
+      simp only [List.length_append] at hb
+      simp only [List.length_take]; omega
+    have hsub : maxBuf - (maxBuf - (serHead h).length) = (serHead h).length := by omega
+    rw [if_neg hb]
+    simp only [ht, parseHead_ser h hw, hlen, hsub, List.drop_left]
+
+/-- one well-formed request at the front of the buffer: answered; the connection goes on behind it
+    exactly when the request asks for keep-alive and its body (if any) is drained -/
+theorem serveAux_ser (c : Cfg) (h : RawHead) (hw : HeadWF h) (hl : (serHead h).length ≤ maxBuf)
+    (fuel : Nat) (lv : Bool) (rest : Bytes) (m : Msg) (hi : interpret h = .ok m) (r : Resp)
+    (ha : answer c m = .ok r) :
+    serveAux c (fuel + 1) lv (serHead h ++ rest) =
+      match (if m.keepAlive then drainBody m rest else none) with
+      | none => [.resp (frame m r)]
+      | some rest' => .resp (frame m r) :: serveAux c fuel m.v11 rest' := by
+  rw [serveAux, headWindow_ser h hw hl rest]
+  simp only [hi, ha]
+  rfl
+
+/-- response and "the connection goes on" of a body-less request; `none` when it is not answered -/
+def outcome (c : Cfg) (h : RawHead) : Option (WResp × Bool) :=
+  match interpret h with
+  | .ok m =>
+    match answer c m with
+    | .ok r => if m.body = .none then some (frame m r, m.keepAlive) else none
+    | .panic _ => none
+  | _ => none
+
+theorem serveAux_outcome (c : Cfg) (h : RawHead) (hw : HeadWF h) (hl : (serHead h).length ≤ maxBuf)
+    (fuel : Nat) (lv : Bool) (rest : Bytes) (w : WResp) (k : Bool) (ho : outcome c h = some (w, k)) :
+    serveAux c (fuel + 1) lv (serHead h ++ rest) =
+      if k then .resp w :: serveAux c fuel w.v11 rest else [.resp w] := by
+  unfold outcome at ho
+  cases hi : interpret h with
+  | bad code => simp [hi] at ho
+  | unsupported => simp [hi] at ho
+  | ok m =>
+    simp only [hi] at ho
+    cases ha : answer c m with
+    | panic s => simp [ha] at ho
+    | ok r =>
+      simp only [ha] at ho
+      by_cases hb : m.body = .none
+      · simp only [hb, if_true, Option.some.injEq, Prod.mk.injEq] at ho
+        obtain ⟨hw', hk⟩ := ho
+        rw [serveAux_ser c h hw hl fuel lv rest m hi r ha]
+        subst hw' hk
+        cases hka : m.keepAlive <;> simp [drainBody, hb, frame]
+      · simp [hb] at ho
+
+/-- a pipeline of requests that each keep the connection, then one that ends it, then anything -/
+theorem serveAux_pipeline (c : Cfg) (rs : List (RawHead × WResp)) (z : RawHead) (wz : WResp) (junk : Bytes)
+    (hrs : ∀ p ∈ rs, HeadWF p.1 ∧ (serHead p.1).length ≤ maxBuf ∧ outcome c p.1 = some (p.2, true))
+    (hz : HeadWF z ∧ (serHead z).length ≤ maxBuf ∧ outcome c z = some (wz, false)) :
+    ∀ (fuel : Nat) (lv : Bool), rs.length < fuel →
+      serveAux c fuel lv ((rs.map fun p => serHead p.1).flatten ++ (serHead z ++ junk))
+        = (rs.map fun p => Out.resp p.2) ++ [.resp wz] := by
+  induction rs with
+  | nil =>
+    intro fuel lv hf
+    cases fuel with
+    | zero => simp at hf
+    | succ f =>
+      simp only [List.map_nil, List.flatten_nil, List.nil_append]
+      rw [serveAux_outcome c z hz.1 hz.2.1 f lv junk wz false hz.2.2]; simp
+  | cons p rs ih =>
+    intro fuel lv hf
+    cases fuel with
+    | zero => simp at hf
+    | succ f =>
+      have hp := hrs p (by simp)
+      simp only [List.map_cons, List.flatten_cons, List.append_assoc]
+      rw [serveAux_outcome c p.1 hp.1 hp.2.1 f lv _ p.2 true hp.2.2]
+      simp only [if_true, List.cons_append, List.cons.injEq, true_and]
+      exact ih (fun q hq => hrs q (by simp [hq])) f p.2.v11 (by simp at hf; omega)
+
+/-- version of the last request read (the status line version of hyper's own error answers) -/
+def lastV (rs : List (RawHead × WResp)) (lv : Bool) : Bool := rs.foldl (fun _ p => p.2.v11) lv
+
+/-- **Prefix law.** Requests that keep the connection are answered one by one, in order; behind them
+    the connection behaves like a connection on which only the rest arrives. -/
+theorem serveAux_prefix (c : Cfg) (rs : List (RawHead × WResp)) (t : Bytes)
+    (hrs : ∀ p ∈ rs, HeadWF p.1 ∧ (serHead p.1).length ≤ maxBuf ∧ outcome c p.1 = some (p.2, true)) :
+    ∀ (fuel : Nat) (lv : Bool), rs.length ≤ fuel →
+      serveAux c fuel lv ((rs.map fun p => serHead p.1).flatten ++ t)
+        = (rs.map fun p => Out.resp p.2) ++ serveAux c (fuel - rs.length) (lastV rs lv) t := by
+  induction rs with
+  | nil => intro fuel lv _; simp [lastV]
+  | cons p rs ih =>
+    intro fuel lv hf
+    cases fuel with
+    | zero => simp at hf
+    | succ f =>
+      have hp := hrs p (by simp)
+      simp only [List.map_cons, List.flatten_cons, List.append_assoc]
+      rw [serveAux_outcome c p.1 hp.1 hp.2.1 f lv _ p.2 true hp.2.2]
+      simp only [if_true, List.cons_append, List.cons.injEq, true_and]
+      rw [ih (fun q hq => hrs q (by simp [hq])) f p.2.v11 (by simp at hf; omega)]
+      simp [lastV]
+
+theorem flatten_ser_length (rs : List (RawHead × WResp)) (hrs : ∀ p ∈ rs, HeadWF p.1) :
+    rs.length ≤ ((rs.map fun p => serHead p.1).flatten).length := by
+  induction rs with
+  | nil => simp
+  | cons p rs ih =>
+    have := serHead_length_pos p.1 (hrs p (by simp))
+    have := ih (fun q hq => hrs q (by simp [hq]))
+    simp only [List.map_cons, List.flatten_cons, List.length_append, List.length_cons]; omega
+
+/-- a buffer whose head does not parse: one answer by hyper (or the switch to HTTP/2), nothing else -/
+theorem serveAux_bad (c : Cfg) (fuel : Nat) (lv : Bool) (b : Bytes) (code : Nat)
+    (hl : b.length ≤ maxBuf) (hb : parseHead b = .bad code) :
+    serveAux c (fuel + 1) lv b = [onParseError lv code b] := by
+  rw [serveAux]; unfold headWindow; rw [if_pos hl, hb]
+
+/-- nothing more, or half a head, when the client is done: no answer -/
+theorem serveAux_more (c : Cfg) (fuel : Nat) (lv : Bool) (b : Bytes)
+    (hl : b.length ≤ maxBuf) (hb : parseHead b = .more) :
+    serveAux c (fuel + 1) lv b = [] := by
+  rw [serveAux]; unfold headWindow; rw [if_pos hl, hb]
+
+/-- every response on any connection, whatever bytes arrive, is the framed answer of the handler to a
+    request hyper accepted -/
+theorem serveAux_resp_mem (c : Cfg) (w : WResp) :
+    ∀ (fuel : Nat) (lv : Bool) (buf : Bytes), Out.resp w ∈ serveAux c fuel lv buf →
+      ∃ h m r, interpret h = .ok m ∧ answer c m = .ok r ∧ w = frame m r := by
+  intro fuel
+  induction fuel with
+  | zero => intro lv buf hm; simp [serveAux] at hm
+  | succ f ih =>
+    intro lv buf hm
+    rw [serveAux] at hm
+    cases hw : headWindow buf with
+    | none => simp [hw] at hm
+    | some ph =>
+      cases ph with
+      | more => simp [hw] at hm
+      | bad code => simp [hw, onParseError] at hm; split at hm <;> simp at hm
+      | ok h rest =>
+        simp only [hw] at hm
+        cases hi : interpret h with
+        | bad code => simp [hi, onParseError] at hm; split at hm <;> simp at hm
+        | unsupported => simp [hi] at hm
+        | ok m =>
+          simp only [hi] at hm
+          cases ha : answer c m with
+          | panic s => simp [ha] at hm
+          | ok r =>
+            simp only [ha] at hm
+            split at hm
+            · simp at hm; exact ⟨h, m, r, hi, ha, hm⟩
+            · simp only [List.mem_cons, Out.resp.injEq] at hm
+              cases hm with
+              | inl e => exact ⟨h, m, r, hi, ha, e⟩
+              | inr hm => exact ih _ _ hm
 
 end Rotonda.HttpServer
